@@ -21,6 +21,8 @@ Oracles are plain predicates over (layout, subscriptions, result); they never ca
 code under test.
 """
 import itertools
+import signal
+import threading
 
 ASSIGNORS = ("range", "roundrobin", "sticky")
 GEN_MODES = ("default", "positive")
@@ -61,6 +63,41 @@ def reset_sticky():
     S.member_assignment = None
     S.generation = S.DEFAULT_GENERATION_ID
     S._latest_partition_movements = None
+
+
+ASSIGN_CPU_LIMIT_S = 2.0    # process CPU seconds (ITIMER_VIRTUAL: immune to machine load); a normal
+                            # call takes well under 0.1 s.  Non-termination is reported as
+                            # exact_cover@raises:TimeoutError (the property requires a result).
+_HANGS = [0]                # after 3 hangs in this process later calls get 0.2 s, so that a tree
+                            # that loops on many inputs still finishes the campaign
+
+
+class _Hang(BaseException):
+    """Raised by the watchdog inside a non-terminating assign(); BaseException so that the
+    assignor's own `except Exception` blocks cannot swallow it."""
+
+
+class _watchdog:
+    def __init__(self):
+        self.seconds = ASSIGN_CPU_LIMIT_S if _HANGS[0] < 3 else 0.2
+        self.armed = False
+
+    def _fire(self, signum, frame):
+        _HANGS[0] += 1
+        raise _Hang()
+
+    def __enter__(self):
+        if threading.current_thread() is threading.main_thread():
+            self.old = signal.signal(signal.SIGVTALRM, self._fire)
+            signal.setitimer(signal.ITIMER_VIRTUAL, self.seconds)
+            self.armed = True
+        return self
+
+    def __exit__(self, *exc):
+        if self.armed:
+            signal.setitimer(signal.ITIMER_VIRTUAL, 0)
+            signal.signal(signal.SIGVTALRM, self.old)
+        return False
 
 
 class AssignorRaised(Exception):
@@ -131,7 +168,10 @@ class Group:
         self.multi_gen_claims = self._multi_gen_claims([m for m, _ in members])
         cluster = StubCluster(layout)
         try:
-            res = self.cls.assign(cluster, mds)
+            with _watchdog():
+                res = self.cls.assign(cluster, mds)
+        except _Hang:
+            raise AssignorRaised("assign", TimeoutError("assign() still running after its CPU limit"))
         except Exception as e:
             raise AssignorRaised("assign", e)
         finally:
